@@ -7,6 +7,7 @@ import DTML.Scan
 import DTML.Parse
 import DTML.Render
 import DTML.Lemmas.Fuel
+import DTML.Lemmas.Print
 set_option linter.unusedVariables false
 namespace DTML.Props.C01
 open DTML.Scan DTML.Parse
@@ -374,6 +375,36 @@ theorem compile_literals (syn : Syntax) (src : Text) (out : Out) (h : compile sy
 /-! ### Part 3: rendering emits literals verbatim, in order, once per rendering of their block -/
 
 section Rendering
+/-! #### from the source text itself: printed documents -/
+
+section Printed
+open DTML.Lemmas.Print
+
+/-- **The scanner finds exactly the tags that were written, and the text between them comes back
+verbatim**: a document printed from (literal, tag) items — literals free of `<` and `&`, names of
+letters, stripped arguments with every `>` inside a quoted string — is cut into exactly these
+literals and tags, with the trailing text left over. -/
+theorem printed_document_tokens (items : List Item) (tail : Text) (hw : ∀ i ∈ items, WfDtml i) (ht : CleanLit tail) :
+    (tokens .html (printDoc printDtml items tail)).1.map (·.1) = items.map (·.lit) ∧
+    (tokens .html (printDoc printDtml items tail)).1.map (·.2.text) = items.map printDtml ∧
+    (tokens .html (printDoc printDtml items tail)).2 = tail := by
+  rw [tokens_dtml items tail hw ht]
+  simp [tokOf, Function.comp_def]
+
+/-- **… and the compiled tree's literal nodes are these literals, in order** (each unchanged, or
+with the one line end after a block tag removed; empty ones omitted) -/
+theorem printed_document_literals (items : List Item) (tail : Text) (hw : ∀ i ∈ items, WfDtml i) (ht : CleanLit tail)
+    (out : Out) (h : compile .html (printDoc printDtml items tail) = .ok out) :
+    ∃ bs : List Bool, bs.length = items.length ∧
+      nodesLits out.nodes = expectLits (false :: bs) (items.map (·.lit) ++ [tail]) := by
+  obtain ⟨bs, hl, he⟩ := compile_literals .html _ out h
+  obtain ⟨h1, _, h3⟩ := printed_document_tokens items tail hw ht
+  refine ⟨bs, ?_, ?_⟩
+  · rw [hl, ← List.length_map (f := (·.1)), h1, List.length_map]
+  · rw [he, h1, h3]
+
+end Printed
+
 open DTML.Render
 
 /-- **A literal block renders to itself**, touching nothing -/
